@@ -103,7 +103,12 @@ def stepC10 (d : DSt) (op : String) (got : String) : StepResult DSt :=
         let ownMarkAllowed := d.cfg.congMarking && bool01 cong
         let firstMark : Option Nat := match decodeAll iframes with
           | some (f :: _) => f.mark | _ => mark
-        let m : Sent := if ownMarkAllowed && (mark.isNone || firstMark.isSome) then { m0 with mark := firstMark } else m0
+        -- nothing was sent: when the link may add its own mark, judge the drop against the smallest
+        -- frame it could have built with a mark of its own (any 1-byte mark has the same size)
+        let mOwn : Sent := { m0 with mark := some 1 }
+        let m : Sent :=
+          if iframes.isEmpty && ownMarkAllowed && mark.isNone && !mOwn.fitsWhole d.cfg.mtu then mOwn
+          else if ownMarkAllowed && (mark.isNone || firstMark.isSome) then { m0 with mark := firstMark } else m0
         let fails : List SpecFail :=
           if !inScope then [] else
           (if framesFit d.cfg.mtu iframes then [] else
